@@ -204,6 +204,20 @@ def run_case(case, ctx):
                 _must_refuse(ctx, "q+SI", lambda: a + s, info)
                 _must_refuse(ctx, "q<SI", lambda: a < s, info)
                 _must_refuse(ctx, "q+number", lambda: a + 1.0, info)
+                _must_refuse(ctx, "number+q", lambda: 1.0 + a, info)
+                _must_refuse(ctx, "number-q", lambda: 2 - a, info)
+                _must_refuse(ctx, "q-number", lambda: a - 2, info)
+                _must_refuse(ctx, "q<number", lambda: a < 1.0, info)
+                # zero is a value like any other (a zero quantity is a falsy float)
+                z = A(0.0, ua)
+                for opn, r, want in (("add-zero", a + z, float(a) + 0.0), ("zero-add", z + a, 0.0 + float(a)), ("sub-zero", a - z, float(a) - 0.0),
+                                     ("zero-sub", z - a, 0.0 - float(a)), ("zero-scale", z * 3.0, 0.0), ("neg-zero", -z, -0.0), ("abs-zero", abs(z), 0.0)):
+                    ctx.count("same_type_ops")
+                    if type(r) is not A or fx(float(r)) != fx(want):
+                        ctx.viol(f"same-type-{opn}", {**info, "got": [type(r).__name__, fx(float(r))], "want": fx(want)})
+                if (z < a) is not (0.0 < float(a)) or (z == A(0.0)) is not True or (z != a) is not (float(a) != 0.0):
+                    ctx.viol("same-type-zero-compare", info)
+                _judge_binop(ctx, "zero*q", z * A(2.0), 0.0, [x + x for x in sa] if type(z * A(2.0)).__name__ == "SI" else list(_sig_of(z * A(2.0))), info)
                 asi = a.asSI()
                 if list(asi.sisig()) != sa or fx(float(asi)) != fx(float(a)):
                     ctx.viol("asSI", {**info, "got": [list(asi.sisig()), fx(float(asi))]})
